@@ -230,3 +230,38 @@ func VerifC19URL() {
 	vAssert(back.Focus == cfg.Focus && back.Sort == cfg.Sort && back.Granularity == cfg.Granularity, "C19.url.strings: a string option changed in the URL round trip")
 	vObserve(u.RawQuery)
 }
+
+func init() { vRegister("VerifC19Resave", VerifC19Resave) }
+
+// VerifC19Resave: saving a configuration under an existing name stores the
+// option values in effect now - whichever option changed since the first
+// save, also the saved options that have no URL parameter (tagroot, tagleaf).
+func VerifC19Resave() {
+	vFSReset()
+	fname := vFSPath("pprof/settings.json")
+	before := currentConfig()
+	u := vMustURL("http://x/?config=c&f=main")
+	if err := setConfig(fname, u); err != nil {
+		vAssert(false, "C19.resave.setup: the first save failed")
+		setCurrentConfig(before)
+		return
+	}
+	opts := [][2]string{{"tagroot", "k"}, {"tagleaf", "j"}, {"hide", "leaf"}, {"nodecount", "7"}, {"call_tree", "true"}, {"granularity", "lines"}, {"sort", "cum"}}
+	o := opts[vChoice("option", len(opts))]
+	if err := configure(o[0], o[1]); err != nil {
+		vAssert(false, "C19.resave.configure: setting the option failed")
+		setCurrentConfig(before)
+		return
+	}
+	want := currentConfig()
+	want.Focus = "main"
+	err := setConfig(fname, u)
+	s, rerr := readSettings(fname)
+	setCurrentConfig(before)
+	vReach("C19.resave:done")
+	if err != nil || rerr != nil || len(s.Configs) != 1 {
+		vAssert(false, "C19.resave.failed: re-saving a configuration failed or changed the number of entries")
+		return
+	}
+	vAssert(s.Configs[0].Name == "c" && s.Configs[0].config == want, "C19.resave.stale: a configuration saved again under the same name does not hold the option values in effect at the second save")
+}
